@@ -102,6 +102,24 @@ CHECKS["C17"] = (
     "Mathematical domains are stated in the check; float32 with parameter scale 3 is left to C19's 'moderate parameters' clause.",
     "DESIGN.md section 3 C17")
 
+CHECKS["C11"] = (
+    "algebraic cross-check monitor between the real accessors (weight, weight_inverse, logabsdet, combined accessors, matrix) and "
+    "the real forward / inverse passes, exhaustive over classes x features 1-6 x Householder counts 1..2f+3 x init modes, in "
+    "float64, float32 and the .double()-converted world, two rounds per object (second round on the filled cache)",
+    "forward(x) = x W^T + b, inverse(y) = (y-b) W^-T, weight_inverse() W = I, logabsdet() = slogdet(W), combined accessors = separate "
+    "ones, pass log-dets = +-logabsdet(), Householder Q Q^T = I, all to 1e-9 * cond(W) (float64); usability of every accepted "
+    "constructor configuration (finite, cond < 1e8 at fresh init); parameter policies incl. tiny-norm reflection vectors.",
+    "torch.linalg (float64) is the reference; feature counts <= 6.",
+    "DESIGN.md section 3 C11")
+CHECKS["C14"] = (
+    "lock-step reference-model monitor: pure-tensor models of the documented ActNorm / BatchNorm life-cycle stepped next to the "
+    "real layers over histories {train, eval, forward, inverse, save+load into a fresh instance}, exhaustive to length 4 (5 thorough) "
+    "plus random long histories; state_dict, outputs and log-dets compared after every step",
+    "Every step's outputs / log-dets and the full state dict are compared with the reference (1e-10); the initialising batch's outputs "
+    "must have zero mean and unit variance per feature/channel; BatchNorm must refuse its inverse in training mode and only there.",
+    "The variance estimator convention (ddof) is learned from the first observation and then required to stay fixed; float64 world.",
+    "DESIGN.md section 3 C14")
+
 PENDING_REASON = "check not built yet in this session (planned, see DESIGN.md section 3); not claimed until it exists and is calibrated"
 
 
